@@ -1,3 +1,3 @@
 From Coq Require Import ExtrOcamlBasic.
 From HV Require Import Base.BSet Base.Bytes Gen.Tables Topo.Dump Text.Calc.
-Extraction "c20_model.ml" calc_main parse_range parse_level_size loop_count.
+Extraction "c20_model.ml" calc_main calc_main_stdin parse_range parse_level_size loop_count.
